@@ -260,3 +260,56 @@ pub fn evolve_container<Old: crate::family::Fam, New: crate::family::Fam + crate
         Err(e) => panic!("C03/C05: data saved at an earlier version must load in the later definition ({} container, {} -> {}): {:?}", if compressed { "compressed" } else { "plain" }, Old::NAME, New::NAME, e),
     }
 }
+
+/// C02 ("data written by one build is readable by every later build") + C13 (format-0 schema sections) through the
+/// real containers: a file in library format 0 (as the first releases wrote it), plain and bzip2-compressed, with its
+/// schema section, loads into today's definition. The bytes are fixed here as text (built by hand from the format
+/// rules; the compressed body with an independent bzip2 implementation).
+pub fn old_format_files<S: Src>(s: &mut S) {
+    use crate::family_gen::SPlain;
+    fn hex(s: &str) -> Vec<u8> { (0..s.len() / 2).map(|i| u8::from_str_radix(&s[2 * i..2 * i + 2], 16).unwrap()).collect() }
+    let compressed = s.bool();
+    let file = if compressed {
+        hex("7361766566696c650000000000000001425a6839314159265359000108f1000009c3007d800800300020003100301829a1e8d96015235e839fed86e54745dc914e14240000423c40")
+    } else {
+        hex("7361766566696c650000000000000000010100000000000000530200000000000000010000000000000061030201000000000000006203060704030201")
+    };
+    match savefile::load::<SPlain>(&mut &file[..], 0) {
+        Ok(v) => assert!(v.a == 7 && v.b == 0x0102_0304, "C02: a library-format-0 file ({}) loads to the value it was written from", if compressed { "compressed" } else { "plain" }),
+        Err(e) => panic!("C02/C13: a library-format-0 file ({}) with its schema section must load: {:?}", if compressed { "compressed" } else { "plain" }, e),
+    }
+}
+
+// ---- C05 for definitions using savefile_versions_as: the schema gate at a version above the conversion range -------
+pub mod gate {
+    use savefile_derive::Savefile;
+    #[derive(Savefile, Debug, PartialEq)] pub struct TwinC { pub a: u8, pub b: u32 }
+    #[derive(Savefile, Debug, PartialEq)] pub struct BothC { pub a: u8, pub b_old: u16, pub b: u32 }
+    #[derive(Savefile, Debug, PartialEq)] pub struct OldC { pub a: u8, pub b: u16 }
+}
+pub fn gate_versions_as<S: Src>(s: &mut S) {
+    use crate::family_gen::{HC1, HD2};
+    let (a, b) = (s.u8(), s.u32());
+    let mut file: Vec<u8> = Vec::new();
+    match s.below(4) {
+        0 => {
+            // identical wire layout at the file's version => accepted, fields keep their values
+            assert!(savefile::save(&mut file, 1, &gate::TwinC { a, b }).is_ok());
+            match savefile::load::<HC1>(&mut &file[..], 1) { Ok(v) => assert!(v.a == a && v.b == b, "C05: accepted data keeps its values"), Err(e) => panic!("C05: a file with the identical wire layout must be accepted: {:?}", e) }
+        }
+        1 => {
+            // a file that has BOTH the old-typed and the new-typed field does not have the layout of the current definition
+            assert!(savefile::save(&mut file, 1, &gate::BothC { a, b_old: 9, b }).is_ok());
+            assert!(savefile::load::<HC1>(&mut &file[..], 1).is_err(), "C05: a file whose layout differs (an extra u16 field) must be rejected, not misread");
+        }
+        2 => {
+            // the old layout presented as a version-1 file is a mismatch as well
+            assert!(savefile::save(&mut file, 1, &gate::OldC { a, b: b as u16 }).is_ok());
+            assert!(savefile::load::<HC1>(&mut &file[..], 1).is_err(), "C05: the pre-conversion layout at the new version must be rejected");
+        }
+        _ => {
+            assert!(savefile::save(&mut file, 2, &gate::TwinC { a, b }).is_ok());
+            match savefile::load::<HD2>(&mut &file[..], 2) { Ok(v) => assert!(v.a == a && v.b == b), Err(e) => panic!("C05: a file with the identical wire layout must be accepted: {:?}", e) }
+        }
+    }
+}
